@@ -212,6 +212,19 @@ func c11Check(c *ctx, sess *core.Session, m c11Matrix, perms []map[string]string
 		}
 		step := &pipeline.CommandStep{Command: "echo {{matrix}} {{matrix.os}} {{matrix.arch}}", Label: "{{matrix.os}}", Matrix: pm,
 			Env: map[string]string{"K": "{{matrix.arch}}"}}
+		if len(p)%2 == 1 {
+			// ...or a step that only uses the dimensions its own matrix has (nothing but the validation stands
+			// between a wrong permutation and a successful interpolation)
+			cmd := "echo"
+			for _, d := range sortedKeysSL(m.setup) {
+				if d == "" {
+					cmd += " {{matrix}}"
+				} else {
+					cmd += " {{matrix." + d + "}}"
+				}
+			}
+			step = &pipeline.CommandStep{Command: cmd, Label: cmd, Matrix: pm}
+		}
 		before, _ := json.Marshal(step)
 		var ierr error
 		if pn, msg := guard(func() { ierr = step.InterpolateMatrixPermutation(pipeline.MatrixPermutation(p)) }); pn {
@@ -231,6 +244,15 @@ func c11Check(c *ctx, sess *core.Session, m c11Matrix, perms []map[string]string
 			c.res.Sample(desc)
 		}
 	}
+}
+
+func sortedKeysSL(m map[string][]string) []string {
+	out := make([]string, 0, len(m))
+	for k := range m {
+		out = append(out, k)
+	}
+	sort.Strings(out)
+	return out
 }
 
 // c11TextRoute: the same matrix written as a document and read by the real parser (the way matrices reach
